@@ -223,7 +223,10 @@ MANIFEST_TEXT = {
     "C05": {
         "text": "Kernel-checked theorems (lean/Indi/Properties/C05.lean) over ALL histories: policy_refinement (blob_routing lookup = history function policyOf: most recent accepted enableBLOB "
                 "since last registration, else Never), C05_clients (device message reaches client c iff registered, not sender, allows(policy, isBlobUpdate)), allows_table, C05_frame "
-                "(independence between clients and between devices), C05_enable_takes_effect, C05_reregister_resets, clients_are_registered, deliveries_nodup. Correspondence over all policy "
+                "(independence between clients and between devices), C05_enable_takes_effect, C05_reregister_resets, clients_are_registered, deliveries_nodup; "
+                "Properties/C05c.lean: with the router's default policy as a parameter (DEFAULT_BLOB_POLICY is a class attribute an application may override) the policy table reached by ANY history does not depend "
+                "on the default (runD_independent) and a client with its own setting for a device is delivered that device's messages under one default iff under any other (C05_explicit_independent_of_default) - "
+                "judged on the real Router by running every history on a plain Router, a subclass and an instance with other defaults. Correspondence over all policy "
                 "assignments of the bounded universe x every device-originated kind, unregister/re-register, and random long histories; oracle = Spec.expectedTrace in Lean.",
         "note": "Trusted: Lean kernel + standard axioms; class flags and default policy from tools/extract.py; recording endpoints; the delivery condition itself is hand-modelled (deliverCond) "
                 "and proved equal to the specification table `allows` for all 6 cases; the condition in router.py and the class test behind is_blob are ALSO translated from the source on every run "
